@@ -180,6 +180,7 @@ fn main() {
     while idx < args.max_runs {
         if let Some(only) = args.only_run { if idx > 0 { break; } idx = only; }
         if args.only_run.is_none() && idx > 0 && t0.elapsed().as_millis() as u64 >= args.budget_ms { break; }
+        if args.miri { println!("DHRUN {}", idx); }
         let run_seed = mix(args.seed.wrapping_mul(0x9E3779B97F4A7C15) ^ idx.wrapping_mul(0xD6E8FEB86659FD93));
         let mut rng = Rng::new(run_seed);
         let res = if profile == "C15" || (profile == "C17" && rng.chance(1, 2)) {
@@ -201,6 +202,13 @@ fn main() {
     }
     if args.list_targets { for (site, kind, hits) in noise::known_targets() { println!("TARGET {:#x} {} {}", site, kind, hits); } }
     write_out(&agg, &args, t0.elapsed().as_secs_f64(), exit_reason);
+    if cfg!(miri) && exit_reason != "stuck" {
+        // leave through the normal end of main so that the interpreter's leak check runs; it insists on all threads being gone
+        let s = desync::scheduler::scheduler();
+        s.set_max_threads(0);
+        s.despawn_threads_if_overloaded();
+        return;
+    }
     // a stuck run leaves threads blocked forever inside the crate: do not try to join anything
     std::process::exit(if exit_reason == "stuck" { 3 } else { 0 });
 }
